@@ -9,6 +9,7 @@ Compared: status (OK / ERR; a different error CODE on both-refuse is soft), the 
 flag, the NUL after the document and the output bytes (dump=1)."""
 import collections
 import os
+import re
 
 from . import common, gen, convcases
 from . import parser_gen as pg, parser_streams as ps
@@ -71,6 +72,10 @@ def correspond(seed, quick=True):
     ca, ccr = common.run_lines(charness, lines)
     ma, _ = common.run_lines(driver, lines)
     dis, soft, dist, okc = [], 0, collections.Counter(), 0
+    bound_checked = bound_exceeded = 0
+    bsc, nex = bound_selfcheck()
+    if not bsc:
+        dis.append({"line": "-", "c": None, "model": None, "why": "bound_N of convmodel.py differs from the Coq Examples"})
     for l, m, a, b in zip(lines, metas, ca, ma):
         dist["%s/gen%d" % (m[0], m[3])] += 1
         pa, pb = convcases.parse_answer(a), _parse_model(b)
@@ -89,9 +94,17 @@ def correspond(seed, quick=True):
         else:
             if pa["len"] != pb["len"] or pa.get("out") != pb.get("out") or pa["nul"] != 1 or pb["nul"] != 1:
                 dis.append({"line": l[:400], "c": (a or "")[:600], "model": (b or "")[:600], "why": "output"})
+            # the proved bound (C01c_output_size_N) on the C's output
+            doclen = 0 if l.split(" ")[-1] == "-" else len(l.split(" ")[-1]) // 2
+            bound_checked += 1
+            bnd = min(bound_N(m[4], doclen), bound3_N(m[4], doclen))
+            if pa["len"] > bnd:
+                bound_exceeded += 1
+                dis.append({"line": l[:400], "c": (a or "")[:200], "model": (b or "")[:200], "why": "output longer than the proved bound %d" % bnd})
     idx = list(range(0, len(lines), max(1, len(lines) // 8)))[:8]
     return {"evaluations": len(lines), "disagreements": dis, "soft": soft, "accepted_by_c": okc,
-            "distribution": dict(dist), "crashes": ccr,
+            "distribution": dict(dist), "crashes": ccr, "bound_checked": bound_checked, "bound_exceeded": bound_exceeded,
+            "bound_examples_pinned": nex,
             "samples": [{"line": lines[i][:200], "c": (ca[i] or "")[:200], "model": (ma[i] or "")[:200]} for i in idx]}
 
 
@@ -110,3 +123,34 @@ def _big_stack(exe):
             f.write(txt)
         os.chmod(sh, 0o755)
     return sh
+
+
+# ---- the proved size bound (coq/Proofs/ConvConcreteProofs.v bound_N, theorem C01c_output_size_N) ----
+KMAX, KNS, KHDR = 49, 64, 166        # C01c_ex_constants (Kmax, KnsT, Khdr of main_table)
+
+
+def bound_N(indent, n):
+    K = KMAX
+    C = 2 * (255 * (indent % 256 + 1)) + 2 * K + KNS + 12
+    phi = lambda x: 24 * (x * (2 * x + 2 * K + 122)) + C * (2 * x)
+    return KHDR + phi(n) + phi(n * (2 * n + 2 * K + 122))
+
+
+def bound3_N(indent, n):
+    """the cubic bound (bound3_N, theorem C01c_output_size_cubic)"""
+    K = KMAX
+    C = 2 * (255 * (indent % 256 + 1)) + 2 * K + KNS + 12
+    phi = lambda x: 24 * (x * (2 * x + 2 * K + 122)) + C * (2 * x)
+    return KHDR + phi(n) + n * (2 * n + 2 * K + 122) * (24 * (2 * (5 * n + K + 121) + 2 * K + 122) + C * 2)
+
+
+def bound_selfcheck():
+    """the python expression is the Coq one: compared with every `Example … : bound_N main_table i n = v` and with the constants
+    of C01c_ex_constants in Properties_C01_conv.v (values evaluated by vm_compute there)"""
+    txt = open(os.path.join(common.COQ, "Properties", "Properties_C01_conv.v")).read()
+    m = re.search(r"\(Kmax main_table, KnsT main_table, Khdr main_table\) = \((\d+), (\d+), (\d+)\)", txt)
+    ex = re.findall(r"[^3]bound_N main_table (\d+) (\d+) = (\d+)\.", " " + txt)
+    ex3 = re.findall(r"bound3_N main_table (\d+) (\d+) = (\d+)\.", txt)
+    ok = bool(m) and (int(m.group(1)), int(m.group(2)), int(m.group(3))) == (KMAX, KNS, KHDR) and len(ex) >= 2 and len(ex3) >= 2
+    return (ok and all(bound_N(int(i), int(n)) == int(v) for i, n, v in ex)
+            and all(bound3_N(int(i), int(n)) == int(v) for i, n, v in ex3)), len(ex) + len(ex3)
